@@ -41,6 +41,7 @@ type request struct {
 	direct bool
 	feat   map[string]bool
 	used   map[string]bool
+	bucket string // systematic cases: het:<fn>/<param>:<v|k>:<A>><B> or ret:<fn>:<kind>
 }
 
 type caseSpec struct {
@@ -58,9 +59,14 @@ func setup() {
 	}
 }
 
-func genCase(seed uint64) *caseSpec {
+func genCase(seed uint64, caseNo int) *caseSpec {
 	setup()
 	r := hx.NewRand(seed)
+	if caseNo >= 0 && caseNo < len(systematic()) {
+		cs := &caseSpec{world: 1, overlay: r.Chance(1, 4)}
+		cs.reqs = sysCase(caseNo, func() *Gen { return &Gen{R: r, W: worlds[1], Budget: 6} })
+		return cs
+	}
 	cs := &caseSpec{world: 1}
 	if r.Chance(1, 6) {
 		cs.world = 0
@@ -335,6 +341,7 @@ func (s *sut) direct(p *Node) string {
 }
 
 type state struct {
+	no   int
 	seed uint64
 	cs   *caseSpec
 	s    *sut
@@ -373,15 +380,16 @@ func serve(req string) string {
 		}
 		return d + " ; " + s.grpc(w.prog, mut)
 	}
-	if len(f) != 3 {
+	if len(f) != 4 {
 		return "badreq"
 	}
 	seed, _ := strconv.ParseUint(f[0], 10, 64)
 	j, _ := strconv.Atoi(f[1])
 	skip, _ := strconv.ParseUint(f[2], 10, 64)
-	if cur == nil || cur.seed != seed || cur.next != j {
-		cs := genCase(seed)
-		cur = &state{seed: seed, cs: cs, s: newSUT(cs)}
+	caseNo, _ := strconv.Atoi(f[3])
+	if cur == nil || cur.seed != seed || cur.no != caseNo || cur.next != j {
+		cs := genCase(seed, caseNo)
+		cur = &state{seed: seed, no: caseNo, cs: cs, s: newSUT(cs)}
 		for i := 0; i < j && i < len(cs.reqs); i++ {
 			if skip&(1<<uint(i)) == 0 {
 				cur.eval(i)
@@ -456,12 +464,12 @@ func closePool() {
 }
 
 // evalCase runs all requests of the case on one worker, in order.
-func evalCase(w *Worker, seed uint64, n int) []string {
+func evalCase(w *Worker, seed uint64, no int, n int) []string {
 	out := make([]string, n)
 	var skip uint64
 	for j := 0; j < n; j++ {
 		t0 := time.Now()
-		ans := w.Ask(fmt.Sprintf("%d %d %d", seed, j, skip))
+		ans := w.Ask(fmt.Sprintf("%d %d %d %d", seed, j, skip, no))
 		if i := strings.Index(ans, " +leak"); i >= 0 {
 			ans = ans[:i] + " +leak"
 			w.stop()
@@ -477,16 +485,16 @@ func evalCase(w *Worker, seed uint64, n int) []string {
 	return out
 }
 
-func submit(seed uint64) *job {
+func submit(seed uint64, no int) *job {
 	if j, ok := pending[seed]; ok {
 		return j
 	}
 	j := &job{seed: seed, done: make(chan []string, 1)}
 	pending[seed] = j
-	n := len(genCase(seed).reqs)
+	n := len(genCase(seed, no).reqs)
 	go func() {
 		w := <-pool
-		j.done <- evalCase(w, seed, n)
+		j.done <- evalCase(w, seed, no, n)
 		pool <- w
 	}()
 	return j
@@ -532,6 +540,9 @@ func emit(c *hx.Ctx, world string, rq *request, ans string) {
 }
 
 func notes(c *hx.Ctx, rq *request) {
+	if rq.bucket != "" {
+		c.Note(rq.bucket)
+	}
 	for k := range rq.feat {
 		c.Note("feat:" + k)
 	}
@@ -557,12 +568,12 @@ var total int
 func runCase(c *hx.Ctx) {
 	seed := c.Rand.Uint64()
 	for k := 1; k <= lookahead && c.CaseNo+k < total; k++ {
-		submit(caseSeedFor(c.Seed, c.CaseNo+k))
+		submit(caseSeedFor(c.Seed, c.CaseNo+k), c.CaseNo+k)
 	}
-	j := submit(seed)
+	j := submit(seed, c.CaseNo)
 	answers := <-j.done
 	delete(pending, seed)
-	cs := genCase(seed)
+	cs := genCase(seed, c.CaseNo)
 	world := cs.worldName()
 	c.Note("world:" + world)
 	c.Note(fmt.Sprintf("requests:%d", len(cs.reqs)))
@@ -575,7 +586,7 @@ func runCase(c *hx.Ctx) {
 	}
 }
 
-const quickCases, thoroughCases = 2000, 12000
+const quickRandom, thoroughRandom = 1100, 11000 // random cases after the systematic ones
 
 func main() {
 	if ServeIfWorker(serve) {
@@ -585,9 +596,9 @@ func main() {
 		n, _ := strconv.Atoi(many)
 		for no := 0; no < n; no++ {
 			seed := caseSeedFor(1, no)
-			cs := genCase(seed)
+			cs := genCase(seed, no)
 			for j := range cs.reqs {
-				serve(fmt.Sprintf("%d %d 0", seed, j))
+				serve(fmt.Sprintf("%d %d 0 %d", seed, j, no))
 			}
 		}
 		return
@@ -597,11 +608,11 @@ func main() {
 		var no, j int
 		fmt.Sscan(one, &rs, &no, &j)
 		seed := caseSeedFor(rs, no)
-		cs := genCase(seed)
+		cs := genCase(seed, no)
 		fmt.Println(cs.worldName(), cs.reqs[j].mut, cs.reqs[j].prog.Text())
 		var skip uint64
 		fmt.Sscan(os.Getenv("C23_SKIP"), &skip)
-		fmt.Println(serve(fmt.Sprintf("%d %d %d", seed, j, skip)))
+		fmt.Println(serve(fmt.Sprintf("%d %d %d %d", seed, j, skip, no)))
 		return
 	}
 	if t := os.Getenv("C23_TIMEOUT_S"); t != "" {
@@ -611,6 +622,8 @@ func main() {
 	initPool()
 	defer closePool()
 	// how many cases this run has (hx parses the flags itself; the lookahead only needs an upper bound)
+	setup()
+	quickCases, thoroughCases := len(systematic())+quickRandom, len(systematic())+thoroughRandom
 	total = quickCases
 	for i, a := range os.Args {
 		if (a == "--tier" || a == "-tier") && i+1 < len(os.Args) && os.Args[i+1] == "thorough" {
@@ -632,7 +645,7 @@ func main() {
 	}
 	hx.Main(hx.Family{
 		Name: "c23",
-		Rule: "1-4 requests per case on one service instance (empty world 1/6, OSM town otherwise; 1/3 with a non-empty overlay layer); each request is an expression tree over the whole registered function table (read by reflection): a call of a uniformly chosen function with arguments generated per Go parameter type (literals with edge values: negative/huge ints, NaN/Inf floats, invalid/missing/mistyped feature IDs, empty and degenerate geometries, queries of every constructor, literal collections incl. mixed/duplicate/unhashable entries; calls of any function whose result feeds the type; lambdas, partial applications, function symbols and queries for function types, 1/12 with a wrong arity; 1/30 an argument of a wrong sort; dropped/extra/swapped arguments), collection pipelines, lambda calls (1/6 with more or fewer arguments than parameters), 1/12 programs inside the fragment the Lean model evaluates (add-ints, pairs, nested lambdas, partial applications, ill-typed arguments); 1/12 requests damaged at the wire level (a message field cleared, no request, bad root, bad version). Every request goes through proto.Marshal/Unmarshal and the real grpc service.Evaluate; half also through api.Evaluate with functions.NewContext. non-trivial = a request uses >= 2 library functions or a lambda; distinct = by hash of the case text",
+		Rule: "the first 1704 cases are systematic (het.go): every collection-typed parameter of every table function x every ordered pair (A,B) of item kinds int/float/string/feature-id/pair/nil gets a collection whose first items are of kind A and later items of kind B, twice as values and once as keys, literal or built with collection(pair..) (buckets het:<fn>/<param>:<v|k>:<A>><B>), and every function-typed parameter gets a lambda returning each of 11 kinds or failing (buckets ret:<fn>:<kind>), other arguments well-formed; then random cases: 1-4 requests per case on one service instance (empty world 1/6, OSM town otherwise; 1/3 with a non-empty overlay layer); each request is an expression tree over the whole registered function table (read by reflection): a call of a uniformly chosen function with arguments generated per Go parameter type (literals with edge values: negative/huge ints, NaN/Inf floats, invalid/missing/mistyped feature IDs, empty and degenerate geometries, queries of every constructor, literal collections incl. mixed/duplicate/unhashable entries, 1/4 with first items of one kind and later items of another; calls of any function whose result feeds the type; lambdas, partial applications, function symbols and queries for function types, 1/12 with a wrong arity; 1/30 an argument of a wrong sort; dropped/extra/swapped arguments), collection pipelines, lambda calls (1/6 with more or fewer arguments than parameters), 1/12 programs inside the fragment the Lean model evaluates (add-ints, pairs, nested lambdas, partial applications, ill-typed arguments); 1/12 requests damaged at the wire level (a message field cleared, no request, bad root, bad version). Every request goes through proto.Marshal/Unmarshal and the real grpc service.Evaluate; half also through api.Evaluate with functions.NewContext. non-trivial = a request uses >= 2 library functions or a lambda; distinct = by hash of the case text",
 		Quick:    quickCases,
 		Thorough: thoroughCases,
 		Corpus: func(c *hx.Ctx) {
